@@ -75,6 +75,21 @@ def run(chk):
                     worst = max(worst, d)
                     if msg or d > TOL:
                         mon.append((sc, k, msg or f"textures / deformation gradient at rate k = {k:g} differ from rate 1 by {d:.3e} (> {TOL:g})"))
+            # block-boundary grain counts: one paired run each (k = 1e-8), trace-validated
+            for sc in MT.block_scenarios(np.random.default_rng([chk.seed, 0xB10C]), chk.tier, regimes=(4, 6),
+                                         sizes=(64, 128, 129, 1024) if chk.tier == "quick" else None):
+                h1 = c01.run_history(rec, dict(sc, rate=1.0))
+                c01.validate_traces(chk, h1, bad)
+                hk = c01.run_history(rec, dict(sc, rate=1e-8))
+                c01.validate_traces(chk, hk, bad)
+                hist["1e-08"] = hist.get("1e-08", 0) + 1
+                if h1["fails"] or hk["fails"]:
+                    mon += [(sc, 1.0, m) for _, m in h1["fails"]] + [(sc, 1e-8, m) for _, m in hk["fails"]]
+                    continue
+                d, msg = compare(h1, hk)
+                worst = max(worst, d)
+                if msg or d > TOL:
+                    mon.append((sc, 1e-8, msg or f"textures / deformation gradient at rate k = 1e-08 differ from rate 1 by {d:.3e} (> {TOL:g})"))
         chk.cov["max_rate_dependence"] = worst
         chk.cov["traces_validated_against_impl"] = chk.cov["evaluations"]
     chk.cov["disagreements"] = len(bad)
